@@ -165,6 +165,24 @@ Theorem C07_chain_invariant_with_lookups :
 Proof. exact chain_invariant_lookups. Qed.
 Print Assumptions C07_chain_invariant_with_lookups.
 
+(* open() = read, repair, re-pad, THEN recompute the missing set: after open() every checkpointed chunk either is
+   flagged missing or what is stored for it hashes to the built-in checkpoint; and a height in a chunk flagged
+   missing is never reported as present (so a lookup fetches, and C07_lookup_checkpoint_only applies) *)
+Theorem C07_open_missing_exact :
+  forall (sha256 : bytes -> bytes) (c : cfg) (file : bytes) (h : nat) (e : bytes),
+  In (h, e) (checkpoints c) ->
+  let s := hopen sha256 c file in
+  In h (missing s) \/ dsha sha256 (read_n (io s) h CHUNK) = e.
+Proof. exact open_missing_exact. Qed.
+Print Assumptions C07_open_missing_exact.
+
+Theorem C07_missing_not_served :
+  forall (sha256 : bytes -> bytes) (c : cfg) (s : st) (height : nat),
+  (exists e, lookup (chunk_start height) (checkpoints c) = Some e) ->
+  In (chunk_start height) (missing s) -> has_header sha256 c s height = false.
+Proof. exact missing_not_served. Qed.
+Print Assumptions C07_missing_not_served.
+
 (* ---- restart ---- *)
 (* open() on ANY file content: what is loaded is a byte prefix of the file (the whole file, or a whole
    number of headers), its headers are the first [hsize] headers of the file, they link by prev hash from
